@@ -250,6 +250,25 @@ func (p *TermPool) Eq(a, b *Term) *Term {
 		// structural (bit) equality on floats is not what Go's == means; callers use FEq.
 		return p.mk(opEq, 0, 0, "", a, b)
 	}
+	if a.w > 0 && (isLinear(a) || isLinear(b)) {
+		// a == b  <=>  a-b == 0 ; decide when the difference is a constant, and
+		// normalise x+c == d to x == d-c
+		l := p.linOf(a)
+		l2 := p.linOf(b)
+		p.linSub(&l, l2, a.w)
+		if len(l.terms) == 0 {
+			return p.Bool(l.c&mask(a.w) == 0)
+		}
+		if len(l.terms) == 1 {
+			for t, co := range l.terms {
+				if co == 1 {
+					a, b = t, p.Const(-l.c, a.w)
+				} else if co == mask(a.w) {
+					a, b = t, p.Const(l.c, a.w)
+				}
+			}
+		}
+	}
 	if a.id > b.id {
 		a, b = b, a
 	}
@@ -270,6 +289,19 @@ func (p *TermPool) Bin(op Op, a, b *Term) *Term {
 	}
 	if a.op == opConst && b.op == opConst {
 		return p.constOf(evalOp(op, rw, a.w, []uint64{a.cval, b.cval}, 0), rw)
+	}
+	if a == b && a.w == fpW && notNaN(a) {
+		switch op {
+		case opFEq, opFLe:
+			return p.Bool(true)
+		case opFLt:
+			return p.Bool(false)
+		}
+	}
+	if (op == opAdd || op == opSub || op == opMul) && a.w != fpW && a.w > 0 {
+		if op != opMul || a.op == opConst || b.op == opConst {
+			return p.linNorm(op, a, b)
+		}
 	}
 	// light algebraic simplifications
 	switch op {
@@ -737,4 +769,186 @@ func (t *Term) String() string {
 	}
 	sb.WriteString(")")
 	return sb.String()
+}
+
+// finite / notNaN are cheap syntactic float analyses used to simplify x == x.
+func finite(t *Term) bool {
+	switch t.op {
+	case opConst:
+		f := math.Float64frombits(t.cval)
+		return !math.IsNaN(f) && !math.IsInf(f, 0)
+	case opSToF, opUToF:
+		return true
+	case opFNeg, opFAbs:
+		return finite(t.args[0])
+	case opFDiv:
+		if finite(t.args[0]) && t.args[1].op == opConst {
+			c := math.Abs(math.Float64frombits(t.args[1].cval))
+			return c >= 1 && !math.IsInf(c, 0) && c == c
+		}
+	case opIte:
+		return finite(t.args[1]) && finite(t.args[2])
+	}
+	return false
+}
+
+func notNaN(t *Term) bool {
+	if finite(t) {
+		return true
+	}
+	switch t.op {
+	case opFAdd, opFSub, opFMul:
+		return finite(t.args[0]) && finite(t.args[1])
+	case opFDiv:
+		if finite(t.args[0]) && t.args[1].op == opConst {
+			c := math.Float64frombits(t.args[1].cval)
+			return c != 0 && c == c
+		}
+	case opFNeg, opFAbs:
+		return notNaN(t.args[0])
+	case opIte:
+		return notNaN(t.args[1]) && notNaN(t.args[2])
+	}
+	return false
+}
+
+// ---------------------------------------------------------------- linear normal form (mod 2^w)
+
+type lin struct {
+	c     uint64
+	terms map[*Term]uint64
+}
+
+func isLinear(t *Term) bool {
+	switch t.op {
+	case opAdd, opSub, opNeg:
+		return true
+	case opMul:
+		return t.args[0].op == opConst || t.args[1].op == opConst
+	}
+	return false
+}
+
+func (p *TermPool) linOf(t *Term) lin {
+	l := lin{terms: map[*Term]uint64{}}
+	p.linAcc(&l, t, 1, 0)
+	return l
+}
+
+func (p *TermPool) linAcc(l *lin, t *Term, co uint64, depth int) {
+	m := mask(t.w)
+	if depth > 200 {
+		l.terms[t] = (l.terms[t] + co) & m
+		return
+	}
+	switch t.op {
+	case opConst:
+		l.c = (l.c + co*t.cval) & m
+	case opAdd:
+		p.linAcc(l, t.args[0], co, depth+1)
+		p.linAcc(l, t.args[1], co, depth+1)
+	case opSub:
+		p.linAcc(l, t.args[0], co, depth+1)
+		p.linAcc(l, t.args[1], (-co)&m, depth+1)
+	case opNeg:
+		p.linAcc(l, t.args[0], (-co)&m, depth+1)
+	case opMul:
+		if t.args[0].op == opConst {
+			p.linAcc(l, t.args[1], (co*t.args[0].cval)&m, depth+1)
+			return
+		}
+		if t.args[1].op == opConst {
+			p.linAcc(l, t.args[0], (co*t.args[1].cval)&m, depth+1)
+			return
+		}
+		fallthrough
+	default:
+		v := (l.terms[t] + co) & m
+		if v == 0 {
+			delete(l.terms, t)
+		} else {
+			l.terms[t] = v
+		}
+	}
+}
+
+func (p *TermPool) linSub(l *lin, o lin, w uint8) {
+	m := mask(w)
+	l.c = (l.c - o.c) & m
+	for t, co := range o.terms {
+		v := (l.terms[t] - co) & m
+		if v == 0 {
+			delete(l.terms, t)
+		} else {
+			l.terms[t] = v
+		}
+	}
+}
+
+func (p *TermPool) linNorm(op Op, a, b *Term) *Term {
+	w := a.w
+	m := mask(w)
+	l := lin{terms: map[*Term]uint64{}}
+	switch op {
+	case opAdd:
+		p.linAcc(&l, a, 1, 0)
+		p.linAcc(&l, b, 1, 0)
+	case opSub:
+		p.linAcc(&l, a, 1, 0)
+		p.linAcc(&l, b, m, 0)
+	case opMul:
+		if a.op == opConst {
+			p.linAcc(&l, b, a.cval, 0)
+		} else {
+			p.linAcc(&l, a, b.cval, 0)
+		}
+	}
+	return p.fromLin(l, w)
+}
+
+func (p *TermPool) fromLin(l lin, w uint8) *Term {
+	m := mask(w)
+	atoms := make([]*Term, 0, len(l.terms))
+	for t := range l.terms {
+		atoms = append(atoms, t)
+	}
+	// deterministic order
+	for i := 1; i < len(atoms); i++ {
+		for j := i; j > 0 && atoms[j-1].id > atoms[j].id; j-- {
+			atoms[j-1], atoms[j] = atoms[j], atoms[j-1]
+		}
+	}
+	var res *Term
+	for _, t := range atoms {
+		co := l.terms[t] & m
+		var x *Term
+		neg := false
+		switch {
+		case co == 1:
+			x = t
+		case co == m: // -1
+			x = t
+			neg = true
+		default:
+			x = p.mk(opMul, w, 0, "", p.Const(co, w), t)
+		}
+		switch {
+		case res == nil && neg:
+			res = p.mk(opNeg, w, 0, "", x)
+		case res == nil:
+			res = x
+		case neg:
+			res = p.mk(opSub, w, 0, "", res, x)
+		default:
+			res = p.mk(opAdd, w, 0, "", res, x)
+		}
+	}
+	c := l.c & m
+	if res == nil {
+		return p.Const(c, w)
+	}
+	if c != 0 {
+		res = p.mk(opAdd, w, 0, "", res, p.Const(c, w))
+	}
+	return res
 }
